@@ -12,7 +12,8 @@
 (* error, or that it is not specified.                                       *)
 EXTENDS Naturals, Sequences, FiniteSets, TLC, Json
 
-CONSTANTS MaxDepth
+CONSTANTS MaxDepth,
+          MaxMid     \* how many levels may carry an intermediate declaration
 
 Names == {"x", "y"}
 LevelKinds == {"fn", "class", "let"}
@@ -20,7 +21,8 @@ Decls == {"none", "nonlocal", "global"}
 
 VARIABLES ks,     \* ks[i]: kind of level i (1..D)
           ds,     \* ds[i+1]: names defined at level i (0..D)
-          gs,     \* gs[i]: level i (a function or class that is not the innermost level) starts with (global x)
+          gs,     \* gs[i]: "none", or level i (a function or class, not the innermost level) starts with
+                  \* (global x) / (nonlocal x)
           decl, dn
 vars == <<ks, ds, gs, decl, dn>>
 
@@ -28,8 +30,8 @@ Init == /\ ks = <<>> /\ gs = <<>> /\ ds \in {<<d>> : d \in SUBSET Names}
         /\ decl \in Decls /\ dn \in SUBSET Names
         /\ (decl = "none") = (dn = {})
 Grow == /\ Len(ks) < MaxDepth
-        /\ \E k \in LevelKinds, d \in SUBSET Names, g \in BOOLEAN :
-              /\ (g => k # "let")
+        /\ \E k \in LevelKinds, d \in SUBSET Names, g \in {"none", "global", "nonlocal"} :
+              /\ (g # "none" => (k # "let" /\ Cardinality({i \in 1..Len(gs) : gs[i] # "none"}) < MaxMid))
               /\ ks' = Append(ks, k) /\ ds' = Append(ds, d) /\ gs' = Append(gs, g)
         /\ UNCHANGED <<decl, dn>>
 Spec == Init /\ [][Grow]_vars
@@ -37,9 +39,10 @@ Spec == Init /\ [][Grow]_vars
 D == Len(ks)
 Kind(i) == IF i = 0 THEN "module" ELSE ks[i]
 AllDefs(i) == ds[i + 1]
-\* a level that declared x global does not bind x: its (setv x ..) writes the module's variable
-G(i) == i \in 1..D /\ gs[i]
-Defs(i) == IF G(i) THEN AllDefs(i) \ {"x"} ELSE AllDefs(i)
+\* a level that declared x global or nonlocal does not bind x: its (setv x ..) writes the declared variable
+L(i) == IF i \in 1..D THEN gs[i] ELSE "none"
+G(i) == L(i) = "global"
+Defs(i) == IF L(i) # "none" THEN AllDefs(i) \ {"x"} ELSE AllDefs(i)
 \* the Python scope a level belongs to: let forms live in the scope around them
 RECURSIVE PyScope(_)
 PyScope(i) == IF Kind(i) = "let" THEN PyScope(i - 1) ELSE i
@@ -63,6 +66,10 @@ Outward(n, j) ==
   ELSE IF n \in Defs(j) /\ Kind(j) \in {"let", "fn", "module"} THEN j
   ELSE Outward(n, j - 1)
 
+\* what x means in the own code of a level that declared it (an intermediate nonlocal is resolved like
+\* the innermost one; nested scopes simply walk past the level, since it does not bind x itself)
+Res(i) == IF G(i) THEN 0 ELSE Outward("x", i - 1)
+
 \* a name is "used" in the declaring Python scope before the declaration if that scope itself assigns
 \* it first (our levels define before they nest)
 UsedBefore(n) == Kind(P) # "let" /\ n \in Defs(P)
@@ -71,7 +78,7 @@ Target(n) ==
   LET lets == {j \in SameScopeLets(n) : j < D} IN
   IF n \notin dn THEN
        \* no declaration: the nearest let binding of this Python scope, else this scope's own variable
-       (IF SameScopeLets(n) # {} THEN MaxOf(SameScopeLets(n)) ELSE IF n = "x" /\ G(P) THEN 0 ELSE P)
+       (IF SameScopeLets(n) # {} THEN MaxOf(SameScopeLets(n)) ELSE IF n = "x" /\ L(P) # "none" THEN Res(P) ELSE P)
   \* nonlocal of a name bound by an enclosing let of the same function: just that variable
   ELSE IF decl = "nonlocal" /\ lets # {} THEN MaxOf(lets)
   ELSE IF UsedBefore(n) THEN Syntax
@@ -81,30 +88,40 @@ Target(n) ==
 \* ---- what the specification leaves open
 Specified ==
   /\ D >= 1
-  \* the innermost level carries the declaration under test, not an extra (global x)
-  /\ ~gs[D]
-  \* a name declared both global and nonlocal in one Python scope is not Python
-  /\ ~(G(P) /\ "x" \in dn)
+  \* the innermost level carries the declaration under test, not an extra one
+  /\ gs[D] = "none"
+  \* a name declared twice in one Python scope is not tried
+  /\ ~(L(P) # "none" /\ "x" \in dn)
   \* intermediate global declarations are only tried when the module defines x itself
-  /\ ((\E i \in 1..D : gs[i]) => "x" \in AllDefs(0))
+  /\ ((\E i \in 1..D : G(i)) => "x" \in AllDefs(0))
   \* nonlocal at module level is not Python; global at module level is a no-op we do not test
   /\ (decl # "none" => P # 0)
   \* declaring a name that the declaring let form itself binds
   /\ ~(Kind(D) = "let" /\ dn \cap Defs(D) # {})
 
-Outcome == IF \E n \in Names : Target(n) \in {Syntax, NoBinding} THEN "syntax" ELSE "ok"
+Outcome == IF \/ \E n \in Names : Target(n) \in {Syntax, NoBinding}
+              \/ \E i \in 1..D : L(i) = "nonlocal" /\ Res(i) = NoBinding
+           THEN "syntax" ELSE "ok"
 Init0(i, n) == (IF n = "x" THEN 10 ELSE 20) + i
 Assigned(n) == IF n = "x" THEN 99 ELSE 98
-\* the module's x before the innermost assignment: the last (setv x ..) that wrote it, in program order
-ModuleWriters == {j \in 0..(D - 1) : "x" \in AllDefs(j) /\ (j = 0 \/ G(j))}
-ModuleInit(n) == IF n = "x" THEN (IF ModuleWriters = {} THEN 0 ELSE Init0(MaxOf(ModuleWriters), "x"))
-                 ELSE (IF n \in AllDefs(0) THEN Init0(0, n) ELSE 0)
+\* ---- final values.  Writes to a binding happen in program order, which is level order (a level
+\* defines before it nests), the innermost assignment last.
+\* levels whose (setv x ..) writes binding b of x: b's own definition and the levels that declared x
+WritersX(b) == {j \in 0..(D - 1) : "x" \in AllDefs(j) /\ ((L(j) = "none" /\ j = b) \/ (L(j) # "none" /\ Res(j) = b))}
+BindingValX(b) == IF Target("x") = b THEN Assigned("x")
+                  ELSE IF WritersX(b) = {} THEN 0 ELSE Init0(MaxOf(WritersX(b)), "x")
 \* module-level value at the end: 0 means no such global
-GlobalAfter(n) == IF Target(n) = 0 THEN Assigned(n) ELSE ModuleInit(n)
-\* value of n seen at level i (which defines n) after everything ran
+GlobalAfter(n) == IF n = "x" THEN BindingValX(0)
+                  ELSE IF Target(n) = 0 THEN Assigned(n) ELSE IF n \in AllDefs(0) THEN Init0(0, n) ELSE 0
+\* the binding the name x denotes at level i (which mentions x in a definition)
 \* (a global declaration holds for the whole Python scope from then on: a let of that scope that binds
 \* the name no longer hides the module's variable once the nested form has declared it global)
-Seen(i, n) == IF i = 0 \/ (n = "x" /\ G(i)) THEN GlobalAfter(n)
+RefX(i) == IF L(i) # "none" THEN Res(i)
+           ELSE IF "x" \in dn /\ decl = "global" /\ Kind(i) = "let" /\ PyScope(i) = P THEN 0
+           ELSE i
+\* value of n seen at level i (which defines n) after everything ran
+Seen(i, n) == IF n = "x" THEN BindingValX(RefX(i))
+              ELSE IF i = 0 THEN GlobalAfter(n)
               ELSE IF Target(n) = i THEN Assigned(n)
               ELSE IF n \in dn /\ decl = "global" /\ Kind(i) = "let" /\ PyScope(i) = P THEN Assigned(n)
               ELSE Init0(i, n)
@@ -130,6 +147,7 @@ Export == Specified =>
                            decl |-> decl, dn |-> [n \in Names |-> n \in dn],
                            outcome |-> Outcome,
                            target |-> [n \in Names |-> IF Target(n) \in 0..D THEN Target(n) ELSE 99],
+                           res |-> [i \in 1..D |-> IF L(i) = "nonlocal" /\ Res(i) \in 0..D THEN Res(i) ELSE 99],
                            glob |-> [n \in Names |-> GlobalAfter(n)],
                            seen |-> [i \in 1..Len(ds) |-> [n \in Names |-> IF n \in ds[i] THEN Seen(i - 1, n) ELSE 0]]])>>)
 =============================================================================
